@@ -1587,6 +1587,12 @@ def run_A(pid, tier, seed):
         stats["liveness_runs"] += 1
         if not ok:
             failures.append(Failure("counterexample", "loop-blocked/async-only", dict(kinds=[], maxc=maxc), detail, slice_="A"))
+    # ... nor when one of two async-thread nodes in flight FAILS while the other is still running
+    for maxc in (2, 3):
+        ok, detail = A.liveness_on_failure(maxc)
+        stats["liveness_runs"] += 1
+        if not ok:
+            failures.append(Failure("counterexample", "loop-blocked/after-a-node-failed", dict(kinds=["fail"], maxc=maxc), detail, slice_="A"))
     # ... with a thread node in flight next to it, it is (known finding, model witness C17c_mixed_witness)
     ok, detail = A.liveness(["t"], 3)
     stats["liveness_runs"] += 1
